@@ -88,6 +88,15 @@ def ili_case(before, lines, after, outcome):
     return inp, exp
 
 
+def ili_lines(text):
+    """the lines a text-mode file object yields (universal newlines: \\n, \\r\\n and \\r end a line, nothing else does — in
+    particular not U+2028, U+0085, form feed or the C0 separators that str.splitlines() also breaks at), without line ends"""
+    parts = text.replace('\r\n', '\n').replace('\r', '\n').split('\n')
+    if parts and parts[-1] == '':
+        parts.pop()
+    return parts
+
+
 def trace_pairs(ops, rec):
     """ops: the operations given to run_trace.py; rec: its record.  Returns {fn: [(input, expected)]}"""
     out = {'run_add': [], 'run_remove': [], 'run_add_ili': []}
@@ -98,7 +107,7 @@ def trace_pairs(ops, rec):
         elif op[0] == 'remove':
             out['run_remove'].append(remove_case(before, op[1], st['after'], st['outcome']))
         elif op[0] == 'ili':
-            lines = [ln.split('\t') for ln in op[1].splitlines()]
+            lines = [ln.split('\t') for ln in ili_lines(op[1])]
             out['run_add_ili'].append(ili_case(before, lines, st['after'], st['outcome']))
         before = st['after']
     return out
